@@ -240,6 +240,19 @@ def embed_guards(model, p):
     return g, still
 
 
+def _one_shot(model, t):
+    """t is the result of a generator function of the package, a generator expression or a lazy builtin"""
+    if t[0] == 'G':
+        return True
+    if t[0] == 'C' and isinstance(t[1], str):
+        if t[1] in ('map', 'filter', 'zip', 'iter', 'enumerate', 'reversed') or t[1].startswith('itertools.'):
+            return True
+        fi = model.repo.func(t[1], required=False) if ':' in t[1] else None
+        if fi is not None and any(isinstance(n, (ast.Yield, ast.YieldFrom)) for n in ast.walk(fi.node)):
+            return True
+    return False
+
+
 def rule_embed_buckets(check, model, rules):
     """rules: dict with keys kinds (C02.R1), clear_must (C02.R2), clear_only (C10.R2), order (C02.R6/C10.R4)"""
     proto = model.proto
@@ -263,6 +276,15 @@ def rule_embed_buckets(check, model, rules):
             key = '_signatures:_embed|bucket%d|%s' % (i, gtext)
             n += 1
             if segs is None:
+                if _one_shot(model, obj):
+                    # a generator handed on as a bucket: whoever iterates it twice (the duplicate-name check and the extend of the
+                    # next fold step; sort/apply of the result) finds it empty the second time
+                    for r in set(x for x in (rules.get('kinds'), rules.get('clear_must')) if x):
+                        check.violation(r, st, 'output bucket %d (%s) is a one-shot iterator (%s), not a list: the next fold step of embed() reads each '
+                                        'bucket of its accumulator more than once, and finds this one empty the second time'
+                                        % (i, want, show(obj)[:60]), key='_signatures:_embed|bucket%d|one-shot' % i,
+                                        witness="embed(s('p, /, *args, **kwargs'), s('q, *args, **kwargs'), s('r')) must be (p, /, q, r)")
+                    continue
                 for r in set(x for x in rules.values() if x):
                     check.inconclusive(r, st, 'output bucket %d is not a tracked fresh container: %s' % (i, show(obj)[:100]), key=key)
                 continue
